@@ -6,7 +6,7 @@
      - short-circuit && and ||: the right operand has no effect when the left decides,
      - := only writes the current frame; = to a name bound only in an outer frame writes exactly that binding. *)
 From Coq Require Import List ZArith NArith Bool Lia.
-From GrolGen Require Import Gen_Consts.
+From GrolGen Require Import Gen_Consts Gen_Prec.
 From GrolModel Require Import Ast RefValues RefEval.
 Import ListNotations.
 Open Scope Z_scope.
@@ -602,3 +602,30 @@ Theorem assign_creates_local : forall (n : bytes) (v : value) (st : state),
 Proof.
   intros n v st Hc Hf. unfold create_or_set. rewrite Hc. unfold gets, set_assign. rewrite Hf. reflexivity.
 Qed.
+
+(* ================================================================== binding strengths *)
+(* the precedence table read from /repo on this run is the documented one the reference was written against *)
+Lemma prec_table_frozen :
+  prec_tables_agree Gen_Prec.precedences ref_prec = true /\ strictly_increasing ref_levels = true.
+Proof. vm_compute. split; reflexivity. Qed.
+
+Lemma prec_lookup_agree : forall t1 t2 t,
+  prec_tables_agree t1 t2 = true -> prec_lookup t1 t = prec_lookup t2 t.
+Proof.
+  intros t1 t2 t H. unfold prec_tables_agree in H. rewrite forallb_forall in H.
+  assert (L : forall tbl, prec_lookup tbl t <> None -> exists p, In (t, p) tbl).
+  { induction tbl as [|[k p] r IH]; simpl; intros Hn; [congruence|].
+    destruct (Z.eqb_spec k t); [subst; eauto|]. destruct (IH Hn) as [q Hq]; eauto. }
+  assert (E : forall a b, opt_z_eqb a b = true -> a = b).
+  { intros [x|] [y|]; simpl; intros; try congruence. f_equal. apply Z.eqb_eq; auto. }
+  destruct (prec_lookup t1 t) as [p1|] eqn:E1.
+  - destruct (L t1) as [p Hp]; [congruence|].
+    specialize (H (t, p) (in_or_app _ _ _ (or_introl Hp))). simpl in H. apply E in H. congruence.
+  - destruct (prec_lookup t2 t) as [p2|] eqn:E2; [|reflexivity].
+    destruct (L t2) as [p Hp]; [congruence|].
+    specialize (H (t, p) (in_or_app _ _ _ (or_intror Hp))). simpl in H. apply E in H. congruence.
+Qed.
+
+(* for EVERY token type the implementation's table and the frozen table give the same binding strength *)
+Theorem prec_table_is_reference : forall t : Z, prec_lookup Gen_Prec.precedences t = prec_lookup ref_prec t.
+Proof. intros t. apply prec_lookup_agree. exact (proj1 prec_table_frozen). Qed.
